@@ -208,6 +208,36 @@ ok = ok and same('both filter identically', c.filter(doc).result, d.filter(doc).
 return ok
 """
         out.append(mk_case(f"c09.param_named_literal.{cid}", [("a", "int"), ("u1", "int")], body, pre=[f"BU({L}, a, u1)"], stubs=["sym_repr"]))
+    # data-path arguments written as specs (`{path[.modifier]...: [parts]}`): the root path (an EMPTY part list, with and without
+    # modifiers), paths with parts and part specs; as the argument itself, as a list item, as a keyword / mapping value; judged through
+    # a rule so that the argument is resolved against the document
+    for cid, spec, dsl in [
+        ("root.length", "{'value.equal_to': {'path.length': []}}", "Value.equal_to(DataPath().length())"),
+        ("root.map_keys.in", "{'value.in': {'path.map_keys': []}}", "Value.in_(DataPath().map_keys())"),
+        ("root.plain", "{'value.not_equal_to': {'path': []}}", "Value.not_equal_to(DataPath())"),
+        ("root.tuple", "{'value.length.less_than': {'path.length': ()}}", "Value.length.less_than(DataPath().length())"),
+        ("root.in_list", "{'value.in': [{'path.length': []}, a]}", "Value.in_([DataPath().length(), a])"),
+        ("root.kw_value", "{'value.items_contain': {'n': {'path.length': []}}}", "Value.items_contain(n=DataPath().length())"),
+        ("root.dtype", "{'value.dtype.equal_to': {'path.dtype': []}}", "Value.dtype.equal_to(DataPath().dtype())"),
+        ("root.upper", "{'VALUE.EQUAL_TO': {'PATH.LENGTH': []}}", "Value.equal_to(DataPath().length())"),
+        ("root.in_comb", "{'or': [{'value.equal_to': {'path.length': []}}, {'value.in': {'path.map_keys': []}}]}", "Value.equal_to(DataPath().length()) | Value.in_(DataPath().map_keys())"),
+        ("parts", "{'value.less_than': {'path': ['lim']}}", "Value.less_than(DataPath('lim'))"),
+        ("parts.dtype", "{'value.dtype.equal_to': {'path.dtype': ['lim']}}", "Value.dtype.equal_to(DataPath('lim').dtype())"),
+        ("parts.partspec.first", "{'value.greater_than': {'path.first': ['xs', {'type': 'list_value'}]}}", "Value.greater_than(DataPath('xs', ListValue()).first())"),
+        ("parts.in_list.intpart", "{'value.in': [{'path': ['xs', 1]}, {'path': ['lim']}]}", "Value.in_([DataPath('xs', 1), DataPath('lim')])"),
+        ("absent", "{'value.equal_to': {'path': ['zz', 0]}}", "Value.equal_to(DataPath('zz', 0))"),
+    ]:
+        body = f"""
+spec = {spec}
+d = {dsl}
+c = ConditionLike.from_spec(spec)
+doc = {{'xs': [u1, 3, a, {{'n': 3}}, 'lim', int], 'lim': a, 'k': 0}}
+ok = note('parsed condition equals the DSL-built one', c == d and d == c and type(c) is type(d))
+ok = ok and same('both judge the nodes identically', summarize_test(Rule(('xs', ListValue()), c).test(doc)), summarize_test(Rule(('xs', ListValue()), d).test(doc)))
+ok = ok and note('parsing again gives an equal condition', ConditionLike.from_spec(spec) == c)
+return ok
+"""
+        out.append(mk_case(f"c09.patharg.{cid}", [("a", "int"), ("u1", U)], body, pre=[f"BU({L}, a, u1)"], stubs=["sym_repr"]))
     # un-escaped literal mappings whose single key merely begins with (or contains) 'path' are literals, not data paths
     for cid, spec, dsl, doc in [
         ("paths", "{'value.equal_to': {'paths': [a, 'b']}}", "Value.equal_to({'paths': [a, 'b']})", "[{'paths': [u1, 'b']}, u1]"),
